@@ -42,6 +42,10 @@ CHECKS = {
    text="Rolled-back transactions (Transaction::rollback, transact with Err, AutoCommit::rollback) of 1-4 random calls on prior states with conflicts, queues and several actors.", ref="§6 C28"),
  "C29": dict(cat="model_checking", tech="TLA+ trace validation (TLC): Trace_Interp (reads inside transaction_at(H) = Interp(ancestors(H)); document after commit = Interp(all applied)), Trace_Seq (calls act on the isolated view), Trace_Graph (deps = H, isolated actor rule)",
    text="Programs with ~30% isolated transactions at random antichains with remote changes arriving in between.", ref="§6 C29", note="assumes as the other trace checks; AutoCommit::isolate/integrate are exercised through Automerge::transaction_at only (the same transaction_args path)"),
+ "C08": dict(cat="model_checking", tech="TLA+ trace validation (TLC, Trace_View): the TLA+ patch applier View!ApplyPatches folded over the logged projection at H1 must give the logged projection at H2",
+   text="diff(H1,H2) for random ordered pairs of antichains (both directions, empty heads, current heads) of conflict-rich histories (counters with concurrent increments, overwritten/deleted values, lists, nested objects, text). The only thing demanded of a patch list is its effect on the view (winners, ids, conflict flags, counter values, list order, text).", ref="§6 C08"),
+ "C09": dict(cat="model_checking", tech="TLA+ trace validation (TLC, Trace_View): patches of every mutating call (*_log_patches variants) folded by View!ApplyPatches over the previous projection must equal the new projection",
+   text="Transactions (incl. transaction_at), apply_changes single/batch/out-of-order, load_incremental and merge on 2-4 replicas with conflicted registers, counters, lists, nested objects and text. Three deliberate/unrepaired deviations of the implementation are listed known findings (narrow classes); any other divergence is reported.", ref="§6 C09"),
 }
 
 NA_REASON = "check not built yet in this session (framework under construction; see DESIGN.md §10 build order)"
